@@ -497,6 +497,167 @@ fn FMT_NAME(f: Fmt) -> &'static str {
     }
 }
 
+/// Lazy records re-written through the three entry points (see `gsam::lazyrw`).
+fn lazy_rewrite_body(ch: &Chooser, cfg: &LazyRw) -> Outcome {
+    use gsam::lazyrw::{self, Source};
+    let source = *ch.pick_free("source", &[Source::Own, Source::BinZero, Source::BinWrong]);
+    let (n_dst, dst) = ch.pick_free("destination", &cfg.dsts);
+    let i = ch.free("record", cfg.recs.len());
+    let (label, want) = &cfg.recs[i];
+    let shape = shape_of(want);
+    let describe = || {
+        format!(
+            "source: raw BAM with 5 references, {}; record `{label}`: {}; read with Reader::read_record; destination header with {n_dst} references",
+            source.name(),
+            want.render()
+        )
+    };
+    ch.desc(|| describe());
+    let lazies = &cfg.lazies[match source {
+        Source::Own => 0,
+        Source::BinZero => 1,
+        Source::BinWrong => 2,
+    }];
+    match lazyrw::check_one(&lazies[i], want, dst, *n_dst) {
+        Ok(n) => {
+            ch.obs_hash((n, i, *n_dst));
+            if n == 0 {
+                ch.tag("lazy-rewrite: rejected by all three entry points (reference id beyond the destination header)");
+            }
+            ch.steps(3);
+            Ok(())
+        }
+        Err(f) => Err(Violation::new(
+            format!(
+                "stage=lazy-rewrite source={} {} field={} shape={shape}",
+                if source == Source::Own { "own" } else { "foreign" },
+                f.what.replace(' ', "_").replace("_symptom=", " symptom="),
+                f.field
+            ),
+            describe(),
+            f.expected,
+            f.observed,
+        )),
+    }
+}
+
+struct LazyRw {
+    recs: Vec<(&'static str, GRec)>,
+    /// lazily read records per source variant (own, bin=0, bin stale)
+    lazies: Vec<Vec<noodles_bam::Record>>,
+    dsts: Vec<(usize, sam::Header)>,
+}
+
+fn lazy_rw_setup() -> LazyRw {
+    use gsam::lazyrw::{self, Source};
+    let recs = lazyrw::source_records(true);
+    let (_, h5) = lazyrw::header_with_refs(5);
+    let models: Vec<GRec> = recs.iter().map(|x| x.1.clone()).collect();
+    let lazies = [Source::Own, Source::BinZero, Source::BinWrong]
+        .into_iter()
+        .map(|s| {
+            let bytes = lazyrw::source_file(&h5, &models, s).unwrap_or_else(|e| vmc::machinery(format!("lazy-rewrite source file: {e}")));
+            lazyrw::read_lazy(&bytes).unwrap_or_else(|e| vmc::machinery(format!("lazy-rewrite read_record: {e}")))
+        })
+        .collect();
+    let dsts = [5usize, 3, 0].into_iter().map(|n| (n, lazyrw::header_with_refs(n).1)).collect();
+    LazyRw { recs, lazies, dsts }
+}
+
+/// Lazy sequence views: `Sequence::{len, is_empty, get, iter (both ends, size_hint), split_at_checked}` and
+/// the two `Subsequence`s of every split, for every length 0..=8 and every split point.
+fn lazy_sequence_body(ch: &Chooser) -> Outcome {
+    use sam::alignment::io::Write as _;
+    let len = ch.free("length", 9);
+    let mid = ch.free("mid", len + 1);
+    let letters = *ch.pick_free("letters", &[&b"ACGTMRWS"[..], &b"=NNA=CCB"[..]]);
+    let bases: Vec<u8> = letters[..len].to_vec();
+    let describe = || format!("record with SEQ \"{}\" ({len} bases) read lazily; sequence().split_at_checked({mid})", String::from_utf8_lossy(&bases));
+    ch.desc(|| describe());
+    let v = |accessor: &str, side: &str, e: String, o: String| -> Outcome {
+        Err(Violation::new(format!("stage=lazy-sequence accessor={accessor} side={side} symptom=differs-from-bases"), describe(), e, o))
+    };
+    let header = sam::Header::default();
+    let g = GRec { seq: bases.clone(), ..GRec::unmapped() };
+    let mut w = noodles_bam::io::Writer::from(Vec::new());
+    let io = |e: std::io::Error| vmc::machinery(format!("lazy-sequence harness: {e}"));
+    w.write_header(&header).unwrap_or_else(io);
+    w.write_alignment_record(&header, &build_record(&g)).unwrap_or_else(io);
+    let bytes = w.into_inner();
+    let mut r = noodles_bam::io::Reader::from(&bytes[..]);
+    r.read_header().map(|_| ()).unwrap_or_else(io);
+    let mut lazy = noodles_bam::Record::default();
+    r.read_record(&mut lazy).map(|_| ()).unwrap_or_else(io);
+    let seq = lazy.sequence();
+    let s = |b: &[u8]| format!("\"{}\"", String::from_utf8_lossy(b));
+    // the whole sequence
+    let fwd: Vec<u8> = seq.iter().collect();
+    if fwd != bases {
+        return v("iter", "whole", s(&bases), s(&fwd));
+    }
+    let mut back: Vec<u8> = seq.iter().rev().collect();
+    back.reverse();
+    if back != bases {
+        return v("iter().rev()", "whole", s(&bases), s(&back));
+    }
+    {
+        // alternate ends
+        let mut it = seq.iter();
+        let (mut f, mut b) = (Vec::new(), Vec::new());
+        loop {
+            if it.size_hint() != (len - f.len() - b.len(), Some(len - f.len() - b.len())) {
+                return v("size_hint", "whole", format!("{}", len - f.len() - b.len()), format!("{:?}", it.size_hint()));
+            }
+            match it.next() {
+                Some(x) => f.push(x),
+                None => break,
+            }
+            match it.next_back() {
+                Some(x) => b.push(x),
+                None => break,
+            }
+            if f.len() + b.len() > 32 {
+                break;
+            }
+        }
+        b.reverse();
+        f.extend(b);
+        if f != bases {
+            return v("iter-both-ends", "whole", s(&bases), s(&f));
+        }
+    }
+    if seq.len() != len || seq.is_empty() != (len == 0) || seq.get(len).is_some() {
+        return v("len", "whole", format!("{len}"), format!("len {} is_empty {} get(len) {:?}", seq.len(), seq.is_empty(), seq.get(len)));
+    }
+    if seq.split_at_checked(len + 1).is_some() {
+        return v("split_at_checked", "whole", "None beyond the length".into(), "Some".into());
+    }
+    // the two halves
+    let Some((l, rgt)) = seq.split_at_checked(mid) else {
+        return v("split_at_checked", "whole", "Some".into(), "None".into());
+    };
+    for (side, sub, want) in [("left", &l, &bases[..mid]), ("right", &rgt, &bases[mid..])] {
+        if sub.len() != want.len() || sub.is_empty() != want.is_empty() {
+            return v("len", side, format!("{}", want.len()), format!("len {} is_empty {}", sub.len(), sub.is_empty()));
+        }
+        let got: Vec<u8> = (0..sub.len()).map(|i| sub.get(i).unwrap_or(b'?')).collect();
+        if got != want || sub.get(want.len()).is_some() {
+            return v("get", side, s(want), s(&got));
+        }
+        let got: Vec<u8> = sub.iter().take(64).collect();
+        if got != want {
+            return v("iter", side, s(want), s(&got));
+        }
+        let got: Vec<u8> = sam::alignment::record::Sequence::iter(sub).take(64).collect();
+        if got != want {
+            return v("trait-iter", side, s(want), s(&got));
+        }
+    }
+    ch.obs_hash((&bases, mid));
+    ch.steps(8);
+    Ok(())
+}
+
 fn main() {
     // The heavy alphabet entries allocate and free ~1 MiB vectors tens of thousands of times; keep
     // that memory in the heap instead of paying an mmap/munmap + page-fault round per vector.
@@ -513,6 +674,12 @@ fn main() {
              (outcome, wire core fields, decoded record) observations",
         );
         ctx.rule(
+            "lazy rewrite: 10 records (incl. one with 65536 ops) read lazily from a 5-reference raw BAM as written by noodles / with bin=0 / \
+             with a stale bin x destination header with 5, 3, 0 references: write_record(lazy), write_alignment_record(lazy) and \
+             write_alignment_record(RecordBuf::try_from(lazy)) agree (Ok/Err, bytes) and decode to the record | lazy sequence views: \
+             every length 0..=8 x every split point x 2 letter sets: len/get/iter (both ends)/split_at_checked and both sub-slices",
+        );
+        ctx.rule(
             "writer sequences: every sequence of 0..3 write_alignment_record calls on one writer over 4 accepted records and one \
              record per rejection reason (29 operations) x {raw, BGZF}: rejected writes return Err and leave nothing behind, the \
              file holds exactly the accepted records",
@@ -526,6 +693,13 @@ fn main() {
         ctx.assume("miniz_oxide inflate + crc32fast (BGZF walker used to get at the wire bytes of BGZF-wrapped files)");
         ctx.assume("RecordBuf setters/constructors store the given field values (checked per execution by viewing the built record)");
         let headers: Vec<sam::Header> = (0..=3).map(std_header).collect();
+        // lazy records re-written through write_record / write_alignment_record / RecordBuf
+        {
+            let cfg = lazy_rw_setup();
+            ctx.harness(Config::new("bam_lazy_rewrite", 0), |ch| lazy_rewrite_body(ch, &cfg));
+        }
+        // lazy sequence views and their sub-slices
+        ctx.harness(Config::new("bam_lazy_sequence_views", 0), lazy_sequence_body);
         // accepted and rejected writes interleaved on one writer
         {
             let ops = gsam::wseq::op_set();
